@@ -176,6 +176,10 @@ def run(ctx: Context) -> None:
         if kw:
             b = ctx.prov.bind(kw[0], si, sf)
             rep.ob("C11.R5", fkey(tree, sf, "auth-argument"), [norm(x) for x in b.get("auth", [])] == ["self._proxy_auth"], where(sf, kw[0]), f"negotiation auth <- {[norm(x) for x in b.get('auth', [])]}")
+            hp = {k: sorted({norm(a) for x in b.get(k, []) for a in ctx.prov.expand(x, sf, kw[0])}) for k in ("host", "port")}
+            okhp = hp == {"host": ["self._remote_origin.host.decode('ascii')"], "port": ["self._remote_origin.port"]}
+            rep.ob("C11.R5", fkey(tree, sf, "negotiated-address"), okhp, where(sf, kw[0]),
+                   "the SOCKS5 CONNECT names exactly the origin host and port" if okhp else f"the SOCKS5 CONNECT names host={hp['host']} port={hp['port']} - not (only) the request origin: the proxy tunnels to a different machine")
 
 
 def _taint_check(ctx: Context, tree: str, f: FuncInfo, call: ast.Call, taint: dict[str, set[str]], which: str) -> None:
